@@ -7,10 +7,13 @@ EXTENDS Props, Json
 \* the abstract state the real chain is in after InitChain(Gen) and its first (empty) block
 RegInit(g) == [p |-> [feeReg |-> g.feeReg, feeRec |-> g.feeRec, feePur |-> g.feePur, denom |-> g.denom, def |-> g.def, max |-> g.max],
                next |-> g.startId, start |-> g.startId, ch |-> <<>>]
+VestOrig(g, a, d) == IF "vesting" \in DOMAIN g /\ a \in DOMAIN g.vesting THEN g.vesting[a][d] ELSE 0
 StateOf(g) ==
   [time |-> 0, height |-> 2, halted |-> FALSE,
-   bal |-> [a \in Range(g.accts) |-> g.bal[a]] @@ [x \in ModuleAccts |-> [nund |-> 0, other |-> 0]],
-   supply |-> [d \in Denoms |-> SumOver([a \in Range(g.accts) |-> g.bal[a][d]], Range(g.accts))],
+   bal |-> [a \in Range(g.accts) |-> [d \in Denoms |-> g.bal[a][d] + VestOrig(g, a, d)]] @@ [x \in ModuleAccts |-> [nund |-> 0, other |-> 0]],
+   supply |-> [d \in Denoms |-> SumOver([a \in Range(g.accts) |-> g.bal[a][d] + VestOrig(g, a, d)], Range(g.accts))],
+   vest |-> [a \in (IF "vesting" \in DOMAIN g THEN DOMAIN g.vesting ELSE {}) |->
+               [orig |-> g.vesting[a], dv |-> [d \in Denoms |-> 0], df |-> [d \in Denoms |-> 0]]],
    ent |-> [p |-> [signers |-> g.ent.signers, min |-> g.ent.min, limit |-> g.ent.limit, denom |-> g.ent.denom],
             next |-> g.ent.startId, start |-> g.ent.startId, po |-> <<>>, rq |-> <<>>, aq |-> <<>>,
             wl |-> [a \in Range(g.accts) |-> Contains(g.ent.wl, a)], wlExtra |-> 0,
